@@ -35,3 +35,232 @@ fn next_id_step() {
     kani::cover!(a.0 == 0, "zero id reachable only at prefix 0 and wrap");
     kani::cover!(counter == u32::MAX - 1, "wrap between the two ids");
 }
+
+// ------------------------------------------------------------------------------------------------
+// C12: text codecs.
+use std::fmt::Write as _;
+
+/// Stub for `alloc::fmt::format` (identical output, no size estimation pass).
+pub(crate) fn format_stub(args: std::fmt::Arguments<'_>) -> String {
+    let mut s = String::with_capacity(64);
+    let _ = s.write_fmt(args);
+    s
+}
+
+/// Stub for `core::slice::memchr::memchr` (identical result, no word-at-a-time tricks).
+pub(crate) fn memchr_stub(x: u8, text: &[u8]) -> Option<usize> {
+    let mut i = 0;
+    while i < text.len() {
+        if text[i] == x {
+            return Some(i);
+        }
+        i += 1;
+    }
+    None
+}
+
+fn hex_digit(n: u8) -> u8 {
+    if n < 10 { b'0' + n } else { b'a' + (n - 10) }
+}
+
+// encode: for EVERY context the string is 55 bytes, `00-`, dashes at 35 and 52, every hex position
+// (symbolic index) is the corresponding nibble in lowercase, flags `00` / `01`.
+#[kani::proof]
+#[kani::unwind(70)]
+#[kani::stub(alloc::fmt::format, format_stub)]
+fn c12_encode_shape() {
+    let ctx = SpanContext { trace_id: TraceId(kani::any()), span_id: SpanId(kani::any()), sampled: kani::any() };
+    let s = ctx.encode_w3c_traceparent();
+    let b = s.as_bytes();
+    assert!(b.len() == 55, "encoded traceparent is not 55 characters");
+    assert!(b[0] == b'0' && b[1] == b'0' && b[2] == b'-' && b[35] == b'-' && b[52] == b'-');
+    let i: usize = kani::any();
+    kani::assume(i < 32);
+    let nib = ((ctx.trace_id.0 >> (4 * (31 - i))) & 0xf) as u8;
+    assert!(b[3 + i] == hex_digit(nib), "trace id hex digit wrong");
+    let j: usize = kani::any();
+    kani::assume(j < 16);
+    let nib = ((ctx.span_id.0 >> (4 * (15 - j))) & 0xf) as u8;
+    assert!(b[36 + j] == hex_digit(nib), "span id hex digit wrong");
+    assert!(b[53] == b'0' && b[54] == if ctx.sampled { b'1' } else { b'0' }, "flags field wrong");
+    std::mem::forget(s);
+    kani::cover!(ctx.sampled && ctx.trace_id.0 >> 127 == 1);
+}
+
+/// Reference parser (25 lines): exactly four '-'-separated fields, first "00", the others accepted
+/// by Rust's radix-16 integer grammar (optional leading '+', at least one hex digit, any case) and
+/// fitting u128 / u64 / u8; sampled = flags & 1.
+fn ref_hex(f: &[u8], max_bits: u32) -> Option<u128> {
+    let f = if !f.is_empty() && f[0] == b'+' { &f[1..] } else { f };
+    if f.is_empty() {
+        return None;
+    }
+    let mut v: u128 = 0;
+    let mut i = 0;
+    while i < f.len() {
+        let c = f[i];
+        let d = match c {
+            b'0'..=b'9' => c - b'0',
+            b'a'..=b'f' => c - b'a' + 10,
+            b'A'..=b'F' => c - b'A' + 10,
+            _ => return None,
+        };
+        if max_bits < 128 && (v << 4 | d as u128) >> max_bits != 0 {
+            return None;
+        }
+        if max_bits == 128 && v >> 124 != 0 {
+            return None;
+        }
+        v = v << 4 | d as u128;
+        i += 1;
+    }
+    Some(v)
+}
+
+fn ref_decode(b: &[u8]) -> Option<(u128, u64, bool)> {
+    let mut cuts = [0usize; 3];
+    let mut n = 0;
+    let mut i = 0;
+    while i < b.len() {
+        if b[i] == b'-' {
+            if n == 3 {
+                return None;
+            }
+            cuts[n] = i;
+            n += 1;
+        }
+        i += 1;
+    }
+    if n != 3 {
+        return None;
+    }
+    let f0 = &b[..cuts[0]];
+    if !(f0.len() == 2 && f0[0] == b'0' && f0[1] == b'0') {
+        return None;
+    }
+    let t = ref_hex(&b[cuts[0] + 1..cuts[1]], 128)?;
+    let s = ref_hex(&b[cuts[1] + 1..cuts[2]], 64)?;
+    let f = ref_hex(&b[cuts[2] + 1..], 8)?;
+    Some((t, s as u64, f & 1 == 1))
+}
+
+fn check_decode_against_reference(bytes: &[u8]) {
+    let s = unsafe { std::str::from_utf8_unchecked(bytes) };
+    let got = SpanContext::decode_w3c_traceparent(s);
+    let exp = ref_decode(bytes);
+    match (got, exp) {
+        (None, None) => {}
+        (Some(g), Some((t, sp, fl))) => {
+            assert!(g.trace_id.0 == t && g.span_id.0 == sp && g.sampled == fl, "decoded fields differ from the reference parser");
+        }
+        (Some(_), None) => panic!("malformed traceparent accepted"),
+        (None, Some(_)) => panic!("well-formed traceparent rejected"),
+    }
+}
+
+// decode: EVERY ASCII string of length <= 4: never panics, result equals the reference parser.
+#[kani::proof]
+#[kani::unwind(6)]
+#[kani::stub(core::slice::memchr::memchr, memchr_stub)]
+fn c12_decode_ascii_le4() {
+    let buf: [u8; 4] = kani::any();
+    let len: usize = kani::any();
+    kani::assume(len <= 4);
+    kani::assume(buf[0] < 128 && buf[1] < 128 && buf[2] < 128 && buf[3] < 128);
+    check_decode_against_reference(&buf[..len]);
+    kani::cover!(len == 4);
+}
+
+// decode: field-shaped inputs `00-H1-H2-H3H4` (thorough: `00-H1H2-H3H4-H5H6`) with every Hi an
+// arbitrary ASCII byte other than '-': accepted iff all are hex digits (or a leading '+'), values
+// as the reference parser says, `10` -> unsampled.
+fn decode_fields(l1: usize, l2: usize, l3: usize) {
+    let h: [u8; 6] = kani::any();
+    let mut buf = [0u8; 12];
+    buf[0] = b'0';
+    buf[1] = b'0';
+    buf[2] = b'-';
+    let mut n = 3;
+    let mut k = 0;
+    while k < 6 {
+        kani::assume(h[k] < 128 && h[k] != b'-');
+        k += 1;
+    }
+    k = 0;
+    while k < l1 {
+        buf[n] = h[k];
+        n += 1;
+        k += 1;
+    }
+    buf[n] = b'-';
+    n += 1;
+    k = 0;
+    while k < l2 {
+        buf[n] = h[2 + k];
+        n += 1;
+        k += 1;
+    }
+    buf[n] = b'-';
+    n += 1;
+    k = 0;
+    while k < l3 {
+        buf[n] = h[4 + k];
+        n += 1;
+        k += 1;
+    }
+    check_decode_against_reference(&buf[..n]);
+    let s = unsafe { std::str::from_utf8_unchecked(&buf[..n]) };
+    kani::cover!(SpanContext::decode_w3c_traceparent(s).is_some(), "some field-shaped input decodes");
+    kani::cover!(SpanContext::decode_w3c_traceparent(s).is_none(), "some field-shaped input is rejected");
+}
+
+#[kani::proof]
+#[kani::unwind(13)]
+#[kani::stub(core::slice::memchr::memchr, memchr_stub)]
+fn c12_decode_fields_112() {
+    decode_fields(1, 1, 2);
+}
+
+#[kani::proof]
+#[kani::unwind(13)]
+#[kani::stub(core::slice::memchr::memchr, memchr_stub)]
+fn c12_decode_fields_222() {
+    decode_fields(2, 2, 2);
+}
+
+// Display of TraceId / SpanId through write! into a pre-sized String: 32 / 16 lowercase hex digits
+// (symbolic position), for all values.
+#[kani::proof]
+#[kani::unwind(40)]
+fn c12_id_display() {
+    let t = TraceId(kani::any());
+    let s = SpanId(kani::any());
+    let mut a = String::with_capacity(40);
+    let _ = write!(a, "{}", t);
+    let mut b = String::with_capacity(40);
+    let _ = write!(b, "{}", s);
+    assert!(a.len() == 32 && b.len() == 16, "id text is not fixed width");
+    let i: usize = kani::any();
+    kani::assume(i < 32);
+    assert!(a.as_bytes()[i] == hex_digit(((t.0 >> (4 * (31 - i))) & 0xf) as u8), "trace id digit wrong");
+    let j: usize = kani::any();
+    kani::assume(j < 16);
+    assert!(b.as_bytes()[j] == hex_digit(((s.0 >> (4 * (15 - j))) & 0xf) as u8), "span id digit wrong");
+    std::mem::forget((a, b));
+    kani::cover!(true);
+}
+
+// FromStr of SpanId / TraceId on every ASCII string of <= 3 bytes equals the reference grammar.
+#[kani::proof]
+#[kani::unwind(5)]
+fn c12_id_fromstr_short() {
+    let buf: [u8; 3] = kani::any();
+    let len: usize = kani::any();
+    kani::assume(len <= 3 && buf[0] < 128 && buf[1] < 128 && buf[2] < 128);
+    let s = unsafe { std::str::from_utf8_unchecked(&buf[..len]) };
+    let sp = s.parse::<SpanId>().ok().map(|x| x.0 as u128);
+    let tr = s.parse::<TraceId>().ok().map(|x| x.0);
+    let r = ref_hex(&buf[..len], 64);
+    assert!(sp == r && tr == r, "FromStr differs from the radix-16 grammar");
+    kani::cover!(r.is_some() && len == 3);
+}
